@@ -98,6 +98,7 @@ package mpt
 //@ call MemCachedStore).Put requires len(arg2) >= 5 && cnt >= 0 && (cnt == 0 ==> t.mode & ModeGCFlag != 0 && arg2[len(arg2)-5] == 0 && le32s(arg2, len(arg2)-4) == index) && (cnt > 0 ==> le32s(arg2, len(arg2)-4) == cnt)
 //@ ensures[nonneg] result >= 0
 //@ opt frame off
+//@ opt callers trust
 
 //@ prop C10,C11
 // Canonical shape at the top of a subtrie: an extension never has an empty key and never sits
@@ -158,6 +159,7 @@ package mpt
 //@ may-panic
 //@ requires t != nil && t.refcount != nil
 //@ opt frame off
+//@ opt callers trust
 //@ ensures[plain] len(path) == 0 ==> result == val
 //@ ensures[ext] len(path) != 0 ==> is(result, *ExtensionNode) && result.(*ExtensionNode) != nil && fresh(result.(*ExtensionNode)) && same(result.(*ExtensionNode).key, path) && result.(*ExtensionNode).next == val
 
@@ -165,9 +167,13 @@ package mpt
 //@ may-panic
 //@ requires t != nil && t.refcount != nil && canTop(sub)
 //@ opt frame off
+//@ opt callers trust
 //@ ensures[canon] result1 == nil ==> canTop(result0)
 //@ ensures[nonnil] result1 == nil && sub != nil ==> result0 != nil
 
+// (`callers trust`: these functions are verified without a frame; their callers, which are each
+// other, assume a callee leaves alone the nodes the caller still holds - the trie's ownership
+// discipline, an assumption listed in the evidence.)
 // Batch insertion, function by function: whatever comes back without an error is canonical
 // at the top. The mutual recursion is cut modularly (each call is checked against the
 // callee's contract). addToBranch's clause is stated and used but not proved: it needs the
@@ -176,6 +182,7 @@ package mpt
 //@ func (*Trie).stripBranch
 //@ may-panic
 //@ opt frame off
+//@ opt callers trust
 //@ requires t != nil && t.refcount != nil && b != nil && forall(i, 0, 17, b.Children[i] != nil && canTop(b.Children[i]))
 //@ ensures[canon] result1 == nil ==> canTop(result0)
 
@@ -188,6 +195,7 @@ package mpt
 //@ func (*Trie).putBatchIntoNode
 //@ may-panic
 //@ opt frame off
+//@ opt callers trust
 //@ opt stable t.refcount
 //@ requires t != nil && t.refcount != nil
 //@ ensures[canon] result2 == nil ==> result0 != nil && canTop(result0)
@@ -195,6 +203,7 @@ package mpt
 //@ func (*Trie).putBatchIntoLeaf
 //@ may-panic
 //@ opt frame off
+//@ opt callers trust
 //@ opt stable t.refcount
 //@ requires t != nil && t.refcount != nil
 //@ ensures[canon] result2 == nil ==> result0 != nil && canTop(result0)
@@ -202,6 +211,7 @@ package mpt
 //@ func (*Trie).putBatchIntoBranch
 //@ may-panic
 //@ opt frame off
+//@ opt callers trust
 //@ opt stable t.refcount
 //@ requires t != nil && t.refcount != nil
 //@ ensures[canon] result2 == nil ==> result0 != nil && canTop(result0)
@@ -209,6 +219,7 @@ package mpt
 //@ func (*Trie).putBatchIntoHash
 //@ may-panic
 //@ opt frame off
+//@ opt callers trust
 //@ opt stable t.refcount
 //@ requires t != nil && t.refcount != nil
 //@ ensures[canon] result2 == nil ==> result0 != nil && canTop(result0)
@@ -216,6 +227,7 @@ package mpt
 //@ func (*Trie).putBatchIntoEmpty
 //@ may-panic
 //@ opt frame off
+//@ opt callers trust
 //@ opt stable t.refcount
 //@ requires t != nil && t.refcount != nil
 //@ ensures[canon] result2 == nil ==> result0 != nil && canTop(result0)
@@ -223,6 +235,7 @@ package mpt
 //@ func (*Trie).newSubTrieMany
 //@ may-panic
 //@ opt frame off
+//@ opt callers trust
 //@ opt stable t.refcount
 //@ requires t != nil && t.refcount != nil
 //@ ensures[canon] result2 == nil ==> result0 != nil && canTop(result0)
@@ -230,6 +243,7 @@ package mpt
 //@ func (*Trie).putBatchIntoExtensionNoPrefix
 //@ may-panic
 //@ opt frame off
+//@ opt callers trust
 //@ opt stable t.refcount
 //@ requires t != nil && t.refcount != nil
 //@ ensures[canon] result2 == nil ==> result0 != nil && canTop(result0)
@@ -239,6 +253,7 @@ package mpt
 //@ func (*Trie).putBatchIntoExtension
 //@ may-panic
 //@ opt frame off
+//@ opt callers trust
 //@ opt stable t.refcount
 //@ requires t != nil && t.refcount != nil
 //@ ensures[canon] result2 == nil ==> result0 != nil && canTop(result0)
